@@ -672,6 +672,8 @@ class RTCSctpTransport(AsyncIOEventEmitter):
         self._fast_recovery_exit = None
         self._fast_recovery_transmit = False
         self._forward_tsn_chunk: Optional[ForwardTsnChunk] = None
+        self._forward_tsn_cumulative: Optional[int] = None
+        self._forward_tsn_streams: dict[int, int] = {}
         self._flight_size = 0
         self._local_tsn = random32()
         self._last_sacked_tsn = tsn_minus_one(self._local_tsn)
@@ -1317,8 +1319,8 @@ class RTCSctpTransport(AsyncIOEventEmitter):
         elif uint32_gte(chunk.cumulative_tsn, self._fast_recovery_exit):
             self._fast_recovery_exit = None
 
-        if not self._sent_queue:
-            # there is no outstanding data, stop T3
+        if not self._sent_queue and not self._forward_tsn_outstanding():
+            # there is no outstanding data or FORWARD TSN, stop T3
             self._t3_cancel()
         elif done:
             # the earliest outstanding chunk was acknowledged, restart T3
@@ -1592,6 +1594,9 @@ class RTCSctpTransport(AsyncIOEventEmitter):
                 # forget gap acknowledgements, the flight size restarts from zero
                 chunk._acked = False
         self._update_advanced_peer_ack_point()
+        if self._forward_tsn_chunk is None and self._forward_tsn_outstanding():
+            # our last FORWARD TSN has not been acknowledged, send it again
+            self._build_forward_tsn()
 
         # adjust congestion window
         self._fast_recovery_exit = None
@@ -1699,21 +1704,38 @@ class RTCSctpTransport(AsyncIOEventEmitter):
         """
         if uint32_gt(self._last_sacked_tsn, self._advanced_peer_ack_tsn):
             self._advanced_peer_ack_tsn = self._last_sacked_tsn
+        if not self._forward_tsn_outstanding():
+            # the peer has caught up with everything we told it to skip
+            self._forward_tsn_cumulative = None
+            self._forward_tsn_streams = {}
 
         done = 0
-        streams = {}
         while self._sent_queue and self._sent_queue[0]._abandoned:
             chunk = self._sent_queue.popleft()
             self._advanced_peer_ack_tsn = chunk.tsn
             done += 1
             if not (chunk.flags & SCTP_DATA_UNORDERED):
-                streams[chunk.stream_id] = chunk.stream_seq
+                self._forward_tsn_streams[chunk.stream_id] = chunk.stream_seq
 
         if done:
-            # build FORWARD TSN
-            self._forward_tsn_chunk = ForwardTsnChunk()
-            self._forward_tsn_chunk.cumulative_tsn = self._advanced_peer_ack_tsn
-            self._forward_tsn_chunk.streams = list(streams.items())
+            self._build_forward_tsn()
+
+    def _build_forward_tsn(self) -> None:
+        """
+        Build a FORWARD TSN chunk up to "Advanced.Peer.Ack.Point".
+        """
+        self._forward_tsn_chunk = ForwardTsnChunk()
+        self._forward_tsn_chunk.cumulative_tsn = self._advanced_peer_ack_tsn
+        self._forward_tsn_chunk.streams = list(self._forward_tsn_streams.items())
+        self._forward_tsn_cumulative = self._advanced_peer_ack_tsn
+
+    def _forward_tsn_outstanding(self) -> bool:
+        """
+        Whether the peer still has to acknowledge our last FORWARD TSN.
+        """
+        return self._forward_tsn_cumulative is not None and uint32_gt(
+            self._forward_tsn_cumulative, self._last_sacked_tsn
+        )
 
     def _update_rto(self, R: float) -> None:
         """
